@@ -691,6 +691,14 @@ func (c *CEnv) evalCall(e *Expr) Val {
 			if _, isI := v.typ.Underlying().(*types.Interface); !isI {
 				efail("typeis on non-interface")
 			}
+			if it, isI := T.Underlying().(*types.Interface); isI {
+				// the dynamic type implements the interface (what a Go type switch case tests)
+				if it.NumMethods() == 0 {
+					return Val{t: fmt.Sprintf("(distinct (i.tag %s) 0)", v.t), typ: tBool}
+				}
+				s.implFacts(T)
+				return Val{t: and(fmt.Sprintf("(distinct (i.tag %s) 0)", v.t), s.implTerm(fmt.Sprintf("(i.tag %s)", v.t), T)), typ: tBool}
+			}
 			return Val{t: fmt.Sprintf("(= (i.tag %s) %d)", v.t, s.tc.tagOf(T)), typ: tBool}
 		case "as":
 			T := c.resolveType(args[0].S)
